@@ -31,6 +31,7 @@
 -/
 import KavaVerif.Proofs.EvmutilTrip
 import KavaVerif.Generated.C10Evmutil
+import KavaVerif.Proofs.TieFnEvmutil
 set_option linter.unusedSimpArgs false
 set_option linter.unusedVariables false
 
@@ -328,5 +329,30 @@ example : (run exBlocked init exOps).bank.supply "bnb" = 20 ∧
     (run exBlocked init exOps).erc.bal (.ext 1) M = 200000000000 ∧
     (run exBlocked init exOps).erc.bal (.ext 1) 3 = 70000000007 ∧
     (run exBlocked init exOps).erc.bal (.ext 1) 4 = 50000000000 := by decide
+
+/-! ## source tie (regenerated)
+
+    `GoFn.Evmutil.*` (Generated/FnEvmutil.lean) is regenerated on every run from the Go source of
+    x/evmutil/keeper/conversion_evm_native_bep3.go by the function translator (tools/extract/fn*.go).  The model
+    inlines the three helpers in `coinToErc` / `ercToCoin` (`amt * F`, `amt / F`, `amt / F * F`, error when
+    `amt / F = 0`); the theorems say that the regenerated definitions compute exactly those expressions
+    (`big.Int.Div` = Euclidean division, `F` = the regenerated 10^10).  A source edit re-opens the obligation of
+    the edited function.  Proofs: Proofs/TieFnEvmutil.lean. -/
+
+theorem C10_source_tie_convertBep3CoinAmountToERC20Amount (amt : Int) :
+    GoFn.Evmutil.convertBep3CoinAmountToERC20Amount_translated = true ∧
+    GoFn.Evmutil.convertBep3CoinAmountToERC20Amount amt = Go.R.ok (amt * F) :=
+  TieFn.evmutil_convertBep3CoinAmountToERC20Amount amt
+
+theorem C10_source_tie_convertBep3ERC20AmountToCoinAmount (amt : Int) :
+    GoFn.Evmutil.convertBep3ERC20AmountToCoinAmount_translated = true ∧
+    GoFn.Evmutil.convertBep3ERC20AmountToCoinAmount amt = Go.R.ok (amt / F) :=
+  TieFn.evmutil_convertBep3ERC20AmountToCoinAmount amt
+
+theorem C10_source_tie_bep3ERC20AmountToCoinMintAndERC20LockAmount (amt : Int) :
+    GoFn.Evmutil.bep3ERC20AmountToCoinMintAndERC20LockAmount_translated = true ∧
+    GoFn.Evmutil.bep3ERC20AmountToCoinMintAndERC20LockAmount amt
+      = (if amt / F = 0 then Go.R.err else Go.R.ok (amt / F, amt / F * F)) :=
+  TieFn.evmutil_bep3ERC20AmountToCoinMintAndERC20LockAmount amt
 
 end KV.EU
